@@ -438,6 +438,7 @@ fn evidence(o: &CheckOpts, res: &BatchResult, det: (u64, u64), new_violations: u
         .put("cells", cells)
         .put("components", J::obj().put("real", J::strs(meta.real.iter().copied())).put("stub", J::strs(meta.stub.iter().copied())))
         .put("determinism", J::obj().put("runs_reexecuted", J::i(det.0)).put("worker_counts", J::Arr(vec![J::i(1), J::i(o.threads as u64)])).put("mismatches", J::i(det.1)))
+        .put("heap_bound_max_use", J::obj().put("permille_of_bound", J::i(st.heap_margin.0)).put("entry_point", J::s(st.heap_margin.1.clone())))
         .put("known_findings_hit", J::strs(known_hits.iter().cloned()))
         .put("exhaustive", J::Bool(false));
     J::obj()
